@@ -14,7 +14,7 @@ THEOREMS = [(M, "NQ.C20." + n) for n in [
     "parity_cases_match_model", "parity_cases_cover", "parity_observable_ancilla",
     "parity_observable_single", "basis_change_involutive", "cnots_target_ancilla",
     "single_flip_is_layer", "parity_meas_sound", "set_state", "rot_compose", "set_state_shape_ok",
-    "set_state_angles_ok"]]
+    "set_state_angles_ok", "parity_call_restores_allocation", "parity_meas_repeated"]]
 TRANSLATORS = ["toolbox"]
 LEVEL_TEXT = (
     "Lean theorems: toffoli_eq / t_inverse_eq — the gate sequences the controller really received (recorded by "
@@ -318,6 +318,71 @@ def stream_parity_model(ctx, res, strings):
                                 "ancilla": out["ancilla"]})
 
 
+def stream_parity_sequence(ctx, res, n_seq):
+    """repeated use: the real trace of several consecutive parity_meas calls in ONE session equals the
+    concatenation of the model traces (`parityMeasSeq`, theorem parity_meas_repeated), and each returned
+    value is the model's for the forced outcome"""
+    from harness import pipeline_sv as P
+    tb = _tb()
+    rng = ctx.rng
+    for _ in range(n_seq):
+        n = rng.choice([1, 2, 3, 4])
+        calls = [("".join(rng.choice("IXYZ") for _ in range(n)), rng.random() < 0.5, rng.randrange(2))
+                 for _ in range(rng.choice([2, 3, 4]))]
+        outs = ctx.driver.batch([{"op": "toolbox.parity", "bases": b} for b, _, _ in calls])
+        model_trace, model_vals, script = [], [], []
+        for (b, neg, o), out in zip(calls, outs):
+            model_trace += out["trace"]
+            model_vals.append(out["res"][1 if neg else 0][o])
+            if out["measured"] is not None:
+                script.append(o)
+        s = P.Session(simulate=False, max_qubits=10)
+        try:
+            qs = s.qubits(n)
+            s.ex.script = list(script)
+            ms = [tb.parity_meas(qs, ("-" if neg else "") + b) for b, neg, _ in calls]
+            s.flush()
+            code_trace = [ev_json(e) for e in s.ex.trace]
+            code_vals = [int(m) for m in ms]
+        finally:
+            s.close()
+        res.evaluations += 1
+        res.count("model:parity-sequence-calls:%d" % len(calls))
+        res.nontrivial.add(("parity-sequence", tuple(calls)))
+        if code_trace != model_trace or code_vals != model_vals:
+            res.disagreements.append({"stream": "parity-sequence", "input": {"n": n, "calls": calls},
+                                      "model": {"trace": model_trace, "res": model_vals},
+                                      "code": {"trace": code_trace, "res": code_vals}})
+
+
+def oracle_parity_repeated(ctx, res):
+    """model-free: with room for exactly ONE ancilla (max_qubits = n + 1) many consecutive calls must all
+    succeed — every call has to give its ancilla back"""
+    from harness import pipeline_sv as P
+    tb = _tb()
+    rng = ctx.rng
+    for n in (2, 3):
+        calls = ["".join(rng.choice("XYZ") for _ in range(n)) for _ in range(6)]
+        res.evaluations += 1
+        res.count("oracle:parity-repeated")
+        res.nontrivial.add(("parity-repeated", n, tuple(calls)))
+        s = P.Session(simulate=False, max_qubits=n + 1)
+        done = 0
+        try:
+            qs = s.qubits(n)
+            for b in calls:
+                tb.parity_meas(qs, b)
+                s.flush()
+                done += 1
+        except Exception as exc:  # the property fails on the real code: record the failing history
+            res.failures.append({"what": "repeated parity_meas on the same qubits stops working", "kf": None,
+                                 "input": {"qubits": n, "max_qubits": n + 1, "calls": calls,
+                                           "failed_at_call": done + 1,
+                                           "error": f"{type(exc).__name__}: {str(exc)[:160]}"}})
+        finally:
+            s.close()
+
+
 def gate_unitary(seq, nq):
     from harness import nvgates as G
     return G.seq_unitary(seq, nq)
@@ -391,7 +456,9 @@ def run(ctx):
     oracle_set_state(ctx, res)
     oracle_parity(ctx, res, short + (all_strings(4) + longer[:40] if ctx.thorough else longer[:6]))
     oracle_parity_sequences(ctx, res, short)
+    oracle_parity_repeated(ctx, res)
     stream_parity_model(ctx, res, (short if ctx.thorough else short[::4]) + longer)
+    stream_parity_sequence(ctx, res, 400 if ctx.thorough else 60)
     stream_pullback(ctx, res, short + [s for s in longer if len(s) <= 4])
     return res
 
@@ -403,6 +470,8 @@ def replay(ctx, payload):
     oracle_gates(ctx, res)
     oracle_set_state(ctx, res)
     oracle_parity(ctx, res, all_strings(1) + all_strings(2) + all_strings(3))
+    oracle_parity_sequences(ctx, res, all_strings(1) + all_strings(2) + all_strings(3))
+    oracle_parity_repeated(ctx, res)
     want = (payload.get("failure") or {}).get("what")
     still = [f for f in res.failures if want is None or f["what"] == want]
     for f in still[:3]:
